@@ -103,6 +103,36 @@ func runConn(env *script.Env, c Case, cc Conn) (r connResult) {
 		}
 		return
 	}
+	if cc.Kind == "tls-ok" {
+		// SSLRequest accepted, TLS handshake, then the start-up exchange - all of it inside the TLS session
+		ts, err := env.NewTLSSess()
+		if err != nil {
+			return connResult{sig: "C12/tls/negotiation", msg: "TLS negotiation failed: " + err.Error()}
+		}
+		var pw *string
+		if c.Auth {
+			pw = &cc.Pass
+		}
+		st := ts.Startup(cc.Pairs, pw)
+		switch {
+		case st.State == memnet.Timeout:
+			return connResult{inconclusive: "start-up inside TLS: guard"}
+		case st.Err != nil:
+			return connResult{sig: "C12/tls/grammar", msg: fmt.Sprintf("connection %d: start-up reply inside TLS: %v", ts.C.ID, st.Err)}
+		case !script.Ready(st.Msgs):
+			return connResult{sig: "C12/tls/startup-reply", msg: fmt.Sprintf("connection %d: the start-up exchange inside TLS did not end in ReadyForQuery: %v (state %s)", ts.C.ID, pgwire.Briefs(st.Msgs), st.State)}
+		}
+		n := 0
+		for _, m := range st.Msgs {
+			if m.Type == 'Z' {
+				n++
+			}
+		}
+		if n != 1 {
+			return connResult{sig: "C12/ready", msg: fmt.Sprintf("connection %d (TLS): %d ReadyForQuery messages", ts.C.ID, n)}
+		}
+		return
+	}
 	s := env.NewSess()
 	fail := func(sig, f string, a ...any) connResult {
 		return connResult{sig: sig, msg: fmt.Sprintf("connection %d (%s): ", s.C.ID, cc.Kind) + fmt.Sprintf(f, a...)}
